@@ -38,6 +38,7 @@ import PS.Proofs.Enum.UUnamb
 import PS.Proofs.Enum.UFrame
 import PS.Proofs.Enum.UCompleteRun
 import PS.Proofs.Enum.UOrderCheck
+import PS.Proofs.Enum.UTotalCheck
 namespace PS.C12HS
 open PS PS.G
 
@@ -291,6 +292,29 @@ theorem C12_HS_U_filter_sorted (E : UHS.Env U π) (rank : UHS.UNT U → Nat) (Go
     out.Pairwise (fun p q => ∀ kp kq, StartKey E p kp → StartKey E q kq → E.ops.lt kq kp = false) :=
   take_sorted R fuel k s' out b h
 
+/-- **C12, termination with a filter, unambiguous-grammar machine**: with enough fuel the generator stops;
+    the pop loop skips every rejected program at most once per non-terminal (a program taken out of a heap
+    never comes back: `UHS.addSucc_proc`), and `next` loops at most once per rejected program -/
+theorem C12_HS_U_filter_terminates (E : UHS.Env U π) (rank : UHS.UNT U → Nat) (Good : π → Prop) (R : RHyp E rank Good)
+    (L Al A : Nat) (T : THyp E L Al A) (fuel : Nat)
+    (hf : FuelOK E rank (L + Al + A + 6 + (langList E rank).length) fuel) (hN : (langList E rank).length + 1 ≤ fuel) :
+    ∃ k s' out, UHS.take E fuel k (UHS.St.empty E.G) [] = some (s', out, true) :=
+  take_stops R T hf hN
+
+/-- **C12, THE FILTER HALF FOR THE UNAMBIGUOUS-GRAMMAR MACHINE** (acyclic unambiguous grammars, several start
+    symbols): with enough fuel the generator stops; its output is duplicate-free, contains only accepted
+    members, and contains every member all of whose sub-programs are accepted -/
+theorem C12_HS_U_filter_full (E : UHS.Env U π) (rank : UHS.UNT U → Nat) (Good : π → Prop) (R : RHyp E rank Good)
+    (L Al A : Nat) (T : THyp E L Al A) (d : UHS.UNT U) (fuel : Nat)
+    (hf : FuelOK E rank (L + Al + A + 6 + (langList E rank).length) fuel) (hN : (langList E rank).length + 1 ≤ fuel) :
+    ∃ k s' out, UHS.take E fuel k (UHS.St.empty E.G) [] = some (s', out, true) ∧ out.Nodup ∧
+      (∀ p ∈ out, PS.U.genU (E.G.toUCFG d) p = true ∧ E.filter p = true) ∧
+      (∀ p, PS.U.genU (E.G.toUCFG d) p = true → PS.HG.clean E.filter p = true → p ∈ out) := by
+  obtain ⟨k, s', out, h⟩ := take_stops R T hf hN
+  obtain ⟨a, b, c⟩ := C12_HS_U_filter_safe E R.ohyp.ghyp rank R.ohyp.acyclic R.disj R.starts_nodup d fuel k s' out true h
+  exact ⟨k, s', out, h, c, fun p hp => ⟨a p hp, b p hp⟩,
+    fun p hp hcl => C12_HS_U_filter_complete E rank Good R d fuel k s' out h p hp hcl⟩
+
 /-! non-vacuity: three start symbols, two alternatives for `+` at `S2`; the filter rejects the leaf `1` -/
 def mT : Ty := .base "int"
 def m0 : UHS.UNT Nat := (mT, 0)
@@ -319,6 +343,14 @@ theorem mE_rhyp : RHyp mE mRank (fun v : Rat => 0 ≤ v) :=
 example : ∀ s' out, UHS.take mE 60 30 (UHS.St.empty mG) [] = some (s', out, true) → ∀ p,
     PS.U.genU (mG.toUCFG m0) p = true → PS.HG.clean mFilter p = true → p ∈ out :=
   fun s' out h p hp hcl => C12_HS_U_filter_complete mE mRank _ mE_rhyp m0 60 30 s' out h p hp hcl
+
+theorem mE_langList : (langList mE mRank).length = 22 := by decide +kernel
+
+example : ∃ k s' out, UHS.take mE 102 k (UHS.St.empty mG) [] = some (s', out, true) ∧ out.Nodup ∧
+    (∀ p ∈ out, PS.U.genU (mG.toUCFG m0) p = true ∧ mFilter p = true) ∧
+    (∀ p, PS.U.genU (mG.toUCFG m0) p = true → PS.HG.clean mFilter p = true → p ∈ out) :=
+  C12_HS_U_filter_full mE mRank _ mE_rhyp 2 2 2 (thyp_of_check mE 2 2 2 (by decide)) m0 102
+    (by rw [mE_langList]; exact fuelOK_of_check mE mRank 34 102 (by decide)) (by rw [mE_langList]; decide)
 
 /-- what the machine does on the example: the leaf `1` is rejected when the start symbol `S0` hands it
     over; the 20 other programs that contain it are still yielded (the statement is an inclusion) -/
